@@ -60,7 +60,7 @@ PolicyResp(s, st, new) ==
        THEN IF ~found /\ ~new
             THEN /\ ObserveResp(s, st, new, "noop")
                  /\ UNCHANGED <<has, left, nxt, exp, timers>>
-            ELSE LET sl == IF found THEN left[k] ELSE A
+            ELSE LET sl == IF found THEN left[k] ELSE AF[s]
                      sn == IF found THEN nxt[k] ELSE cd
                      upd == sl - 1
                      ttl == sn + TTLBase
@@ -91,7 +91,7 @@ FlowsResp(s, st, new) ==
     /\ mode = "flows"
     /\ IF InCond(st)                       \* Filter hit -> Retry processor
        THEN LET c == count[k] + 1
-                lim == IF Bug = "offbyone" THEN A + 1 ELSE A
+                lim == IF Bug = "offbyone" THEN AF[s] + 1 ELSE AF[s]
             IN IF c > lim
                THEN /\ ObserveResp(s, st, new, "failed")
                     /\ count' = [count EXCEPT ![k] = IF Bug = "noclear" THEN c ELSE 0]
